@@ -319,7 +319,7 @@ def exEnvI (now : Int) : TransI.Env :=
     timeNow := now
     cookie := fun _ n => if n = "session" then .ok (some ⟨"session", "abc"⟩, none) else .ok (none, some "http.ErrNoCookie")
     storeGet_Session := fun k => if k = "/sessions/abc" then .ok (⟨3600⟩, none) else .ok (default, some "not found") }
-example : TransI.cookieSession (exEnvI 3600) ⟨⟩ ⟨0⟩ (some ⟨0⟩) none = .ok (some ⟨3600⟩, []) := by rfl
-example : TransI.cookieSession (exEnvI 3601) ⟨⟩ ⟨0⟩ (some ⟨0⟩) none = .ok (none, [evLoginForm]) := by rfl
+example : TransI.cookieSession (exEnvI 3600) default ⟨0⟩ (some ⟨0⟩) none = .ok (some ⟨3600⟩, []) := by rfl
+example : TransI.cookieSession (exEnvI 3601) default ⟨0⟩ (some ⟨0⟩) none = .ok (none, [evLoginForm]) := by rfl
 
 end SamlVerif.TransSession
